@@ -7,6 +7,7 @@ import FqeVerif.Generated.PyInt
 import FqeVerif.Model.Sectors
 import FqeVerif.Lemmas.Bits
 import FqeVerif.Model.Maps
+import FqeVerif.Lemmas.Binom
 namespace GenPy
 open PyPrelude Model
 
@@ -454,5 +455,107 @@ theorem py_mmes_entry (source mask : Nat) (ops : List Nat) :
       simp only [decide_eq_true_eq]; exact z.2 h
     simp [d1, h]
 
+
+/-! ### `_get_Z_matrix`, reference branch -/
+
+theorem pyRange_cast (a b : Nat) : pyRange (a : Int) (b : Int) = (List.range' a (b - a)).map (fun (m : Nat) => (m : Int)) := by
+  unfold pyRange
+  have h : ((b : Int) - (a : Int)).toNat = b - a := by omega
+  rw [h, List.range'_eq_map_range, List.map_map]
+  apply List.map_congr_left
+  intro x _
+  simp
+
+theorem pySum_cast (l : List Nat) (f : Int → Int) :
+    pySum (l.map (fun (m : Nat) => (m : Int))) f = l.foldl (fun (acc : Int) (m : Nat) => acc + f (m : Int)) 0 := by
+  unfold pySum
+  rw [List.foldl_map]
+
+/-- the value the first loop nest assigns at (k, ll) = (r+1, c+1) is the Model's entry -/
+theorem py_z1_value (norb nele r c : Nat) (hr : r + 1 < nele) (hrc : r ≤ c) (hc : c ≤ norb - nele + r) (hn : nele ≤ norb) :
+    z1_value (norb : Int) (nele : Int) ((r : Int) + 1) ((c : Int) + 1) = zEntry norb nele r c := by
+  unfold z1_value zEntry
+  have hcond : r + 1 ≤ c + 1 ∧ c + 1 ≤ norb - nele + (r + 1) := by omega
+  simp only [hr, if_true, hcond, and_self]
+  have e1 : ((norb : Int) - ((c : Int) + 1)) + (1 : Int) = ((norb - (c + 1) + 1 : Nat) : Int) := by omega
+  have e2 : ((norb : Int) - ((r : Int) + 1)) + (1 : Int) = ((norb - (r + 1) + 1 : Nat) : Int) := by omega
+  rw [e1, e2, pyRange_cast, pySum_cast, filter_range_ge (norb - (c + 1) + 1) (norb - (r + 1)) (by omega)]
+  have := sumRange'_congr
+    (fun m => pyBinom (m : Int) ((nele : Int) - ((r : Int) + 1)) - pyBinom ((m : Int) - (1 : Int)) (((nele : Int) - ((r : Int) + 1)) - (1 : Int)))
+    (fun m => ((binom m (nele - (r + 1)) : Int) - (binom (m - 1) (nele - (r + 1) - 1) : Int)))
+    (norb - (c + 1) + 1) (norb - (r + 1) + 1 - (norb - (c + 1) + 1)) (by
+      intro x hx _
+      unfold pyBinom
+      have a1 : ((nele : Int) - ((r : Int) + 1)).toNat = nele - (r + 1) := by omega
+      have a2 : (((nele : Int) - ((r : Int) + 1)) - (1 : Int)).toNat = nele - (r + 1) - 1 := by omega
+      have a3 : ((x : Int) - (1 : Int)).toNat = x - 1 := by omega
+      rw [a1, a2, a3, Int.toNat_natCast])
+  unfold sumRange' at this
+  exact this
+
+theorem py_z2_value (norb nele c : Nat) (h1 : nele ≤ c + 1) (h2 : c + 1 ≤ norb) (h0 : 0 < nele) :
+    z2_value (norb : Int) (nele : Int) (z2_k norb nele) ((c : Int) + 1) = zEntry norb nele (nele - 1) c := by
+  unfold z2_value zEntry
+  have hk2 : nele - 1 + 1 = nele := by omega
+  simp only [hk2, Nat.lt_irrefl, if_false, if_true, h1, h2, and_self]
+  push_cast
+  rfl
+
+/-- **the reference Z matrix is the Model's**: every assignment of the two translated loop nests of `_get_Z_matrix`
+    writes the Model's entry at the index it names, and an index no iteration names has Model entry 0 (the
+    `numpy.zeros` initial value) -/
+theorem py_z_matrix (norb nele : Nat) (hn : nele ≤ norb) (r c : Nat) :
+    (∀ k ∈ z1_rows (norb : Int) (nele : Int), ∀ ll ∈ z1_cols (norb : Int) (nele : Int) k,
+        z1_index (norb : Int) (nele : Int) k ll = ((r : Int), (c : Int)) →
+        z1_value (norb : Int) (nele : Int) k ll = zEntry norb nele r c) ∧
+    (∀ ll ∈ z2_cols (norb : Int) (nele : Int),
+        z2_index (norb : Int) (nele : Int) (z2_k norb nele) ll = ((r : Int), (c : Int)) →
+        z2_value (norb : Int) (nele : Int) (z2_k norb nele) ll = zEntry norb nele r c) ∧
+    ((∀ k ∈ z1_rows (norb : Int) (nele : Int), ∀ ll ∈ z1_cols (norb : Int) (nele : Int) k,
+        z1_index (norb : Int) (nele : Int) k ll ≠ ((r : Int), (c : Int))) →
+     (∀ ll ∈ z2_cols (norb : Int) (nele : Int),
+        z2_index (norb : Int) (nele : Int) (z2_k norb nele) ll ≠ ((r : Int), (c : Int))) →
+     zEntry norb nele r c = 0) := by
+  refine ⟨?_, ?_, ?_⟩
+  · intro k hk ll hll hidx
+    unfold z1_rows at hk
+    unfold z1_cols at hll
+    rw [mem_pyRange] at hk hll
+    unfold z1_index at hidx
+    have hk' : k = (r : Int) + 1 := by have := congrArg Prod.fst hidx; simp only at this; omega
+    have hl' : ll = (c : Int) + 1 := by have := congrArg Prod.snd hidx; simp only at this; omega
+    subst hk'; subst hl'
+    exact py_z1_value norb nele r c (by omega) (by omega) (by omega) hn
+  · intro ll hll hidx
+    unfold z2_cols at hll
+    rw [mem_pyRange] at hll
+    unfold z2_index z2_k at hidx
+    have hk' : (nele : Int) - 1 = (r : Int) := by have := congrArg Prod.fst hidx; simpa using this
+    have hl' : ll = (c : Int) + 1 := by have := congrArg Prod.snd hidx; simp only at this; omega
+    subst hl'
+    have hr : r = nele - 1 := by omega
+    subst hr
+    exact py_z2_value norb nele c (by omega) (by omega) (by omega)
+  · intro h1 h2
+    unfold zEntry
+    by_cases hk : r + 1 < nele
+    · simp only [hk, if_true]
+      by_cases hcond : r + 1 ≤ c + 1 ∧ c + 1 ≤ norb - nele + (r + 1)
+      · exfalso
+        refine h1 ((r : Int) + 1) ?_ ((c : Int) + 1) ?_ ?_
+        · unfold z1_rows; rw [mem_pyRange]; omega
+        · unfold z1_cols; rw [mem_pyRange]; omega
+        · unfold z1_index; simp
+      · simp only [hcond, if_false]
+    · simp only [hk, if_false]
+      by_cases hk2 : r + 1 = nele
+      · simp only [hk2, if_true]
+        by_cases hcond : nele ≤ c + 1 ∧ c + 1 ≤ norb
+        · exfalso
+          refine h2 ((c : Int) + 1) ?_ ?_
+          · unfold z2_cols; rw [mem_pyRange]; omega
+          · unfold z2_index z2_k; simp; omega
+        · simp only [hcond, if_false]
+      · simp only [hk2, if_false]
 
 end GenPy
